@@ -13,6 +13,7 @@ import (
 	"github.com/tdewolff/canvas"
 
 	"verifharness/internal/cq"
+	"verifharness/internal/curve"
 	"verifharness/internal/gen"
 	"verifharness/internal/out"
 	"verifharness/internal/pd"
@@ -117,8 +118,14 @@ func main() {
 			continue
 		}
 		r := root.Fork(uint64(i))
-		if *mode == "stroke" {
+		if *mode == "stroke" && i%8 == 3 {
+			curvedStrokeCase(o, r, i)
+		} else if *mode == "stroke" && i%8 == 7 {
+			closedCurvedStrokeCase(o, r, i)
+		} else if *mode == "stroke" {
 			strokeCase(o, r, i)
+		} else if i%4 == 3 {
+			curvedOffsetCase(o, r, i)
 		} else {
 			offsetCase(o, r, i)
 		}
@@ -256,6 +263,10 @@ func strokeCase(o *out.W, r *rng.R, i int) {
 }
 
 func samplesAround(r *rng.R, c []ipt, closed bool, hw, limit float64) []ipt {
+	return samplesAroundM(r, c, closed, hw, limit, margin)
+}
+
+func samplesAroundM(r *rng.R, c []ipt, closed bool, hw, limit, margin float64) []ipt {
 	var s []ipt
 	u := float64(int64(1) << unitBits)
 	// bounding box
@@ -365,4 +376,328 @@ func offsetCase(o *out.W, r *rng.R, i int) {
 	desc["samples_units_2^-30"] = samples
 	term := fmt.Sprintf("mkOC %s %s %s %s %s %s", contourTerm(in[0]), cq.Bool(grow), sq(math.Abs(d)-margin), sq(math.Abs(d)+margin), pathTerm(rc), cq.List(ss))
 	o.Emit(out.Case{I: i, Fam: "offset-" + fam + map[bool]string{true: "-grow", false: "-shrink"}[grow], Coq: term, Desc: desc})
+}
+
+// curvedStrokeCase: Stroke of an open path with Bezier / arc segments under a round join and a round or square cap.  The judge's
+// "input path" is a dense sampling of the curves (128 pieces per segment; the sampling deviation is added to the margin), so that
+// the classification is by the distance to the curve itself up to that margin.
+const cmargin = margin + 1.0/64
+
+func curvedStrokeCase(o *out.W, r *rng.R, i int) {
+	g := func(lo, hi int) float64 { return float64(r.Range(lo*4, hi*4)) / 4 }
+	p := &canvas.Path{}
+	x, y := g(-8, 8), g(-8, 8)
+	p.MoveTo(x, y)
+	fam := "curved"
+	nseg := r.Range(1, 2)
+	for k := 0; k < nseg; k++ {
+		w, h := g(6, 30), g(2, 16)
+		if r.Bool() {
+			h = -h
+		}
+		switch r.Intn(7) {
+		case 0:
+			fam += "-quad"
+			p.QuadTo(x+w*float64(r.Range(1, 3))/4, y+h, x+w, y+g(-3, 3))
+		case 1: // convex cubic
+			fam += "-cubic"
+			p.CubeTo(x+w/4, y+h, x+3*w/4, y+h*float64(r.Range(2, 6))/4, x+w, y)
+		case 2: // S curve, inflection in the middle
+			fam += "-scurve"
+			p.CubeTo(x+w/3, y+h, x+2*w/3, y-h, x+w, y+g(-2, 2))
+		case 3: // inflection close to the start: a slight bend to one side, then a turn to the other
+			fam += "-inflstart"
+			p.CubeTo(x+w/5, y+float64(r.Range(1, 4))/8*sign(h), x+4*w/5, y, x+w, y-h)
+		case 4: // inflection close to the end
+			fam += "-inflend"
+			p.CubeTo(x+w/5, y+h, x+4*w/5, y, x+w, y+float64(r.Range(1, 4))/8*sign(h))
+		case 5: // circular / elliptic arc
+			fam += "-arc"
+			rx := w/2 + g(0, 6)
+			ry := rx
+			rot := 0.0
+			if r.Bool() {
+				ry = rx * rng.Pick(r, []float64{0.5, 0.75, 1.5})
+				rot = rng.Pick(r, []float64{0, 30, 45, 90, 120})
+			}
+			p.ArcTo(rx, ry, rot, r.P(1, 3), r.Bool(), x+w, y+g(-3, 3))
+		default:
+			fam += "-line"
+			p.LineTo(x+w, y+h)
+		}
+		x, y = p.Pos().X, p.Pos().Y
+	}
+	segs, err := pd.Decode(p.Data())
+	if err != nil {
+		return
+	}
+	polys, _ := curve.Sample(segs, 128)
+	if len(polys) != 1 || len(polys[0]) < 2 {
+		return
+	}
+	var in []ipt
+	for _, v := range polys[0] {
+		q := ipt{units(v.X), units(v.Y)}
+		if len(in) > 0 && in[len(in)-1] == q {
+			continue
+		}
+		in = append(in, q)
+	}
+	w := rng.Pick(r, []float64{0.5, 1, 1.5, 2, 3})
+	hw := w / 2
+	capI := 1 + r.Intn(2)
+	caps := []canvas.Capper{canvas.ButtCap, canvas.RoundCap, canvas.SquareCap}
+	desc := map[string]interface{}{"path": p.String(), "width": w, "cap": capNames[capI], "join": "Round", "limit": 0.0, "tolerance": tol}
+	res := runOp(func() *canvas.Path { return p.Copy().Stroke(w, caps[capI], canvas.RoundJoin, tol).Flatten(ftol) })
+	if res.panic != "" || res.hang {
+		desc["panic"], desc["hang"] = res.panic, res.hang
+		o.Emit(out.Case{I: i, Fam: fam, Coq: "", Desc: desc})
+		return
+	}
+	rc, ok := decodeFlat(res.p)
+	if !ok {
+		return
+	}
+	desc["R"] = res.p.String()
+	samples := samplesAroundM(r, in, false, hw, 1.001, cmargin)
+	capZone := "0%Z"
+	if capI == 2 {
+		capZone = sq(1.5*hw + cmargin)
+	}
+	ss := make([]string, len(samples))
+	for k, s := range samples {
+		ss[k] = ptTerm(s)
+	}
+	desc["samples_units_2^-30"] = samples
+	desc["ellipse_offset_error"], desc["sample_dist"] = ellipseOffsetError(p, hw), sampleDists(in, false, samples)
+	term := fmt.Sprintf("mkSC false %s %s 1%%Z %s %s 0%%Z %s %s %s 0%%Z %s %s", contourTerm(in), cq.Z(int64(capI)),
+		sq(hw-cmargin), sq(hw+cmargin), capZone, sq(2*cmargin), sq(hw), pathTerm(rc), cq.List(ss))
+	o.Emit(out.Case{I: i, Fam: fam + "/" + capNames[capI] + "/Round", Coq: term, Desc: desc})
+}
+
+func sign(x float64) float64 {
+	if x < 0 {
+		return -1
+	}
+	return 1
+}
+
+// closedCurved builds a simple closed contour whose last drawing segment is a curve that ends on the start point (the close
+// command has zero length): an ellipse of two arcs, a blob of two cubics, or two lines closed by a quadratic.
+func closedCurved(r *rng.R) (*canvas.Path, string) {
+	g := func(lo, hi int) float64 { return float64(r.Range(lo*4, hi*4)) / 4 }
+	p := &canvas.Path{}
+	x, y := g(-6, 6), g(-6, 6)
+	switch r.Intn(3) {
+	case 0:
+		rx, ry := g(3, 12), g(3, 12)
+		rot := rng.Pick(r, []float64{0, 0, 90, 30, 60})
+		c, s := math.Cos(rot*math.Pi/180), math.Sin(rot*math.Pi/180)
+		if rot == 90 {
+			c, s = 0, 1
+		}
+		sweep := r.Bool()
+		p.MoveTo(x+rx*c, y+rx*s)
+		p.ArcTo(rx, ry, rot, false, sweep, x-rx*c, y-rx*s)
+		p.ArcTo(rx, ry, rot, false, sweep, x+rx*c, y+rx*s)
+		p.Close()
+		return p, "ellipse"
+	case 1:
+		w, h1, h2 := g(8, 24), g(3, 10), g(3, 10)
+		if r.Bool() {
+			h1, h2 = -h1, -h2
+		}
+		p.MoveTo(x, y)
+		p.CubeTo(x+w/4, y+h1, x+3*w/4, y+h1, x+w, y)
+		p.CubeTo(x+3*w/4, y-h2, x+w/4, y-h2, x, y)
+		p.Close()
+		return p, "blob"
+	default:
+		w, h := g(6, 16), g(6, 16)
+		if r.Bool() {
+			h = -h
+		}
+		p.MoveTo(x, y)
+		p.LineTo(x+w, y)
+		p.LineTo(x+w, y+h)
+		p.QuadTo(x-g(0, 4), y+h, x, y)
+		p.Close()
+		return p, "lines+quad"
+	}
+}
+
+func sampleClosed(p *canvas.Path) ([]ipt, bool, bool) {
+	segs, err := pd.Decode(p.Data())
+	if err != nil {
+		return nil, false, false
+	}
+	polys, _ := curve.Sample(segs, 128)
+	if len(polys) != 1 || len(polys[0]) < 3 {
+		return nil, false, false
+	}
+	var in []ipt
+	for _, v := range polys[0] {
+		q := ipt{units(v.X), units(v.Y)}
+		if len(in) > 0 && in[len(in)-1] == q {
+			continue
+		}
+		in = append(in, q)
+	}
+	for len(in) > 1 && in[0] == in[len(in)-1] {
+		in = in[:len(in)-1]
+	}
+	var a2 float64
+	for k := range in {
+		a, b := in[k], in[(k+1)%len(in)]
+		a2 += float64(a.X)*float64(b.Y) - float64(b.X)*float64(a.Y)
+	}
+	return in, a2 > 0, true
+}
+
+func closedCurvedStrokeCase(o *out.W, r *rng.R, i int) {
+	p, fam := closedCurved(r)
+	in, _, ok := sampleClosed(p)
+	if !ok {
+		return
+	}
+	w := rng.Pick(r, []float64{0.5, 1, 1.5, 2, 3})
+	hw := w / 2
+	capI := r.Intn(3)
+	caps := []canvas.Capper{canvas.ButtCap, canvas.RoundCap, canvas.SquareCap}
+	desc := map[string]interface{}{"path": p.String(), "width": w, "cap": capNames[capI], "join": "Round", "limit": 0.0, "tolerance": tol}
+	res := runOp(func() *canvas.Path { return p.Copy().Stroke(w, caps[capI], canvas.RoundJoin, tol).Flatten(ftol) })
+	if res.panic != "" || res.hang {
+		desc["panic"], desc["hang"] = res.panic, res.hang
+		o.Emit(out.Case{I: i, Fam: "closed-curved-" + fam, Coq: "", Desc: desc})
+		return
+	}
+	rc, ok := decodeFlat(res.p)
+	if !ok {
+		return
+	}
+	desc["R"] = res.p.String()
+	samples := samplesAroundM(r, in, true, hw, 1.5, cmargin)
+	// the start vertex is where a capped (unjoined) outline differs from the joined one
+	u := float64(int64(1) << unitBits)
+	for k := 0; k < 10; k++ {
+		ang := float64(r.Intn(64)) / 64 * 2 * math.Pi
+		rad := rng.Pick(r, []float64{hw - 2*cmargin, hw + 2*cmargin, 1.2 * hw, 0.8 * hw}) * u
+		samples = append(samples, ipt{in[0].X + int64(rad*math.Cos(ang)), in[0].Y + int64(rad*math.Sin(ang))})
+	}
+	ss := make([]string, len(samples))
+	for k, s := range samples {
+		ss[k] = ptTerm(s)
+	}
+	desc["samples_units_2^-30"] = samples
+	desc["ellipse_offset_error"], desc["sample_dist"] = ellipseOffsetError(p, hw), sampleDists(in, true, samples)
+	term := fmt.Sprintf("mkSC true %s %s 1%%Z %s %s 0%%Z 0%%Z %s %s 0%%Z %s %s", contourTerm(in), cq.Z(int64(capI)),
+		sq(hw-cmargin), sq(hw+cmargin), sq(2*cmargin), sq(hw), pathTerm(rc), cq.List(ss))
+	o.Emit(out.Case{I: i, Fam: "closed-curved-" + fam + "/" + capNames[capI] + "/Round", Coq: term, Desc: desc})
+}
+
+func curvedOffsetCase(o *out.W, r *rng.R, i int) {
+	p, fam := closedCurved(r)
+	in, ccw, ok := sampleClosed(p)
+	if !ok {
+		return
+	}
+	d := rng.Pick(r, []float64{0.25, 0.5, 1, 2})
+	if r.Bool() {
+		d = -d
+	}
+	grow := (d > 0) == ccw
+	desc := map[string]interface{}{"path": p.String(), "offset": d, "ccw": ccw, "tolerance": tol}
+	res := runOp(func() *canvas.Path { return p.Copy().Offset(d, tol).Flatten(ftol) })
+	if res.panic != "" || res.hang {
+		desc["panic"], desc["hang"] = res.panic, res.hang
+		o.Emit(out.Case{I: i, Fam: "offset-curved-" + fam, Coq: "", Desc: desc})
+		return
+	}
+	rc, ok := decodeFlat(res.p)
+	if !ok {
+		return
+	}
+	desc["R"] = res.p.String()
+	samples := samplesAroundM(r, in, true, math.Abs(d), 1.5, cmargin)
+	u := float64(int64(1) << unitBits)
+	for k := 0; k < 10; k++ {
+		ang := float64(r.Intn(64)) / 64 * 2 * math.Pi
+		rad := rng.Pick(r, []float64{math.Abs(d) - 2*cmargin, math.Abs(d) + 2*cmargin, 0.8 * math.Abs(d)}) * u
+		samples = append(samples, ipt{in[0].X + int64(rad*math.Cos(ang)), in[0].Y + int64(rad*math.Sin(ang))})
+	}
+	ss := make([]string, len(samples))
+	for k, s := range samples {
+		ss[k] = ptTerm(s)
+	}
+	desc["samples_units_2^-30"] = samples
+	desc["ellipse_offset_error"], desc["sample_dist"] = ellipseOffsetError(p, math.Abs(d)), sampleDists(in, true, samples)
+	term := fmt.Sprintf("mkOC %s %s %s %s %s %s", contourTerm(in), cq.Bool(grow), sq(math.Abs(d)-cmargin), sq(math.Abs(d)+cmargin), pathTerm(rc), cq.List(ss))
+	o.Emit(out.Case{I: i, Fam: "offset-curved-" + fam + map[bool]string{true: "-grow", false: "-shrink"}[grow], Coq: term, Desc: desc})
+}
+
+
+// distTo is the float distance of a sample (grid units) to the sampled input polyline, in user units (for the evidence and the
+// exact trigger of the ellipse known finding only; the judgement itself is exact, in Coq)
+func distTo(in []ipt, closed bool, q ipt) float64 {
+	u := float64(int64(1) << unitBits)
+	best := math.Inf(1)
+	n := len(in) - 1
+	if closed {
+		n = len(in)
+	}
+	for k := 0; k < n; k++ {
+		a, b := in[k], in[(k+1)%len(in)]
+		ax, ay, bx, by := float64(a.X)/u, float64(a.Y)/u, float64(b.X)/u, float64(b.Y)/u
+		px, py := float64(q.X)/u, float64(q.Y)/u
+		dx, dy := bx-ax, by-ay
+		t := 0.0
+		if l2 := dx*dx + dy*dy; l2 > 0 {
+			t = math.Max(0, math.Min(1, ((px-ax)*dx+(py-ay)*dy)/l2))
+		}
+		best = math.Min(best, math.Hypot(px-ax-t*dx, py-ay-t*dy))
+	}
+	return best
+}
+
+func sampleDists(in []ipt, closed bool, samples []ipt) []float64 {
+	ds := make([]float64, len(samples))
+	for k, q := range samples {
+		ds[k] = math.Round(distTo(in, closed, q)*1e6) / 1e6
+	}
+	return ds
+}
+
+// ellipseOffsetError: the library offsets an elliptical arc with radii rx, ry by d as the ellipse with radii rx+-d, ry+-d; this is
+// the largest distance between that ellipse and the true parallel curve (both sides), 0 for circles and paths without arcs
+func ellipseOffsetError(p *canvas.Path, d float64) float64 {
+	segs, err := pd.Decode(p.Data())
+	if err != nil {
+		return 0
+	}
+	worst := 0.0
+	for _, s := range segs {
+		if s.Cmd != 'A' || s.A[0] == s.A[1] {
+			continue
+		}
+		a, b := s.A[0], s.A[1]
+		for _, dd := range []float64{d, -d} {
+			if a+dd <= 0 || b+dd <= 0 {
+				worst = math.Max(worst, d)
+				continue
+			}
+			for k := 0; k < 512; k++ {
+				t := 2 * math.Pi * float64(k) / 512
+				x, y := a*math.Cos(t), b*math.Sin(t)
+				nx, ny := b*math.Cos(t), a*math.Sin(t)
+				l := math.Hypot(nx, ny)
+				x, y = x+dd*nx/l, y+dd*ny/l
+				// distance of (x,y) to the ellipse (a+dd, b+dd), first order: |f|/|grad f| with f = (x/A)^2+(y/B)^2-1
+				A, B := a+dd, b+dd
+				f := x*x/(A*A) + y*y/(B*B) - 1
+				g := 2 * math.Hypot(x/(A*A), y/(B*B))
+				worst = math.Max(worst, math.Abs(f)/g)
+			}
+		}
+	}
+	return worst
 }
